@@ -177,6 +177,9 @@ STATEFUL = [
     [[b"DM.SCAN", b"%d" % i, b"d", b"0", b"RC"] for i in range(P.PARTS)],
     [[b"DM.PUT", b"d", b"n", b"notanumber"], [b"DM.INCR", b"d", b"n", b"1"], [b"DM.INCRBYFLOAT", b"d", b"n", b"1.5"],
      [b"DM.GETPUT", b"d", b"n", b"x", b"RW"]],
+    # an atomic operation that fails on the stored value must leave the key usable: the following ones are answered
+    [[b"DM.PUT", b"d", b"f", b"notanumber"], [b"DM.INCRBYFLOAT", b"d", b"f", b"1.5"], [b"DM.INCRBYFLOAT", b"d", b"f", b"2"],
+     [b"DM.GETPUT", b"d", b"f", b"still-text"], [b"DM.INCRBYFLOAT", b"d", b"f", b"nan"], [b"DM.DECR", b"d", b"f", b"1"], [b"DM.INCR", b"d", b"f", b"1"]],
     [[b"DM.PUT", b"d", b"a", b"1"]] + [[b"DM.SCAN", b"%d" % i, b"d", b"0", b"COUNT", b"-5"] for i in range(P.PARTS)],
     [[b"DM.SCAN", b"%d" % i, b"d", b"0", b"COUNT", b"9223372036854775807"] for i in range(P.PARTS)],
     [[b"DM.SCAN", b"%d" % i, b"d", b"18446744073709551615", b"COUNT", b"1"] for i in range(P.PARTS)],
